@@ -981,6 +981,29 @@ func (e *Exec) sxCall(env *SpecEnv, n *ast.CallExpr) SVal {
 			return SVal{T: env.results[i].T, Typ: env.results[i].Typ}
 		}
 		return e.specErr(env, n, "result index out of range")
+	case "fieldOf":
+		// fieldOf(p, "name"): field of the struct p points to, by name - also unexported fields of
+		// another package of the repository (which Go-typed contract text cannot mention)
+		p := e.sx(env, n.Args[0])
+		lit, ok := n.Args[1].(*ast.BasicLit)
+		pt, ok2 := types.Unalias(p.Typ).Underlying().(*types.Pointer)
+		if !ok || !ok2 {
+			return e.specErr(env, n, "fieldOf needs a pointer and a field name")
+		}
+		want := strings.Trim(lit.Value, "\"")
+		var pkg *types.Package
+		if nt, ok := types.Unalias(pt.Elem()).(*types.Named); ok {
+			pkg = nt.Obj().Pkg()
+		}
+		_, idx, _ := types.LookupFieldOrMethod(pt, true, pkg, want)
+		if len(idx) == 0 {
+			return e.specErr(env, n, "fieldOf: no field %s", want)
+		}
+		v := p
+		for _, i := range idx {
+			v = e.fieldStep(env, v, i)
+		}
+		return v
 	case "deref":
 		p := e.sx(env, n.Args[0])
 		pt := types.Unalias(p.Typ).Underlying().(*types.Pointer)
